@@ -124,6 +124,9 @@ pub struct RunOpts {
     /// stop at the first violation
     pub stop_on_violation: bool,
     pub record_sample: bool,
+    /// before this step the cache is replaced by its clone and the original is dropped
+    /// (C01/C03/C04 quantify over histories that contain clone)
+    pub clone_swap_at: Option<usize>,
 }
 
 impl RunOpts {
@@ -136,6 +139,7 @@ impl RunOpts {
             seeds: [0x1234_5678_9abc_def1, 0x0fed_cba9_8765_4321, 0x5555_aaaa_5555_aaaa, 0x0123_4567_89ab_cdef],
             stop_on_violation: true,
             record_sample: false,
+            clone_swap_at: None,
         }
     }
 }
@@ -581,6 +585,45 @@ pub fn run_history(cfg: &Cfg, kt: KeyType, ops: &[Op], opts: &RunOpts, cov: &mut
     'ops: for (i, op) in ops.iter().enumerate() {
         let nv = (i as u64 + 1) * 64;
         let checking = i >= opts.check_from;
+        if opts.clone_swap_at == Some(i) {
+            match sub.clone_box() {
+                Ok(Some(c)) => {
+                    let old = std::mem::replace(&mut sub, c);
+                    #[cfg(feature = "talloc")]
+                    crate::talloc::in_lib(true);
+                    let d = guarded(move || drop(old));
+                    #[cfg(feature = "talloc")]
+                    crate::talloc::in_lib(false);
+                    cb_take();
+                    cov.must.bump("clone-swap");
+                    if d.is_err() {
+                        out.panicked = true;
+                        break 'ops;
+                    }
+                    match sub.snapshot(opts.lookup_audit) {
+                        Ok(s) => {
+                            model.st.lists = (0..s.lists.len()).map(|li| s.kv(li)).collect();
+                            model.st.p = s.p;
+                            pre = s;
+                        }
+                        Err(e) => {
+                            if props.c03 {
+                                viol!("C03", "audit", i, op, "after-clone", "the clone fails the structural audit: {}", e);
+                            }
+                            break 'ops;
+                        }
+                    }
+                    if props.needs_probes() {
+                        last_probes = sub.probes(uni).ok();
+                    }
+                }
+                Ok(None) => {}
+                Err(_) => {
+                    out.panicked = true;
+                    break 'ops;
+                }
+            }
+        }
         let bounds = model.bounds();
         let pc = pre_class(kind, &pre, op, &bounds);
         let ests = if kind == Kind::Wtlfu { sub.estimates(uni) } else { None };
